@@ -12,7 +12,7 @@ from __future__ import annotations
 import ast
 from typing import Any, Dict, List, Optional, Tuple
 
-from engine.absint import AbsObj, ClassRef, ModuleEnv, NumpyTerms, symbolic_apply
+from engine.absint import AbsObj, BoundRepoMethods, ClassRef, ModuleEnv, NumpyTerms, symbolic_apply
 from engine.index import AnalysisError, FuncInfo
 from engine.pyinterp import Function, Interp, InterpRaised, Stub, Unsupported
 
@@ -274,7 +274,9 @@ ALL_COLS = ["season", "weekday_weekend", "temperature", "observed", "predicted",
 AGG_VALUES = [None, "none", "None", "NONE", "monthly", "bimonthly", "weekly", "MS", "2MS", "quarterly", "bi-monthly", "daily", ""]
 
 
-class _Model(AbsObj):
+class _Model(AbsObj, BoundRepoMethods):
+    """What the scenario does not set (private helper methods, class-level tables and messages) is the repository class's own, interpreted."""
+
     def __init__(self, classes, with_observed: bool):
         super().__init__(classes, is_fitted=True, disqualification=[], warnings=[], baseline_timezone="TZ", _data_df_name="df")
         self._with_observed = with_observed
@@ -294,6 +296,8 @@ def interpret_predict(chk, fi: FuncInfo, classes, aggregation, with_observed: bo
     _INTERP[0] = it
     env = ModuleEnv(chk.repo, fi.module, it, {"np": NumpyTerms(), "numpy": NumpyTerms(), "pd": PD(), "pandas": PD()})
     model = _Model(classes, with_observed)
+    if fi.cls is not None:
+        model._bind_repo(chk, fi.cls, it, {"np": NumpyTerms(), "numpy": NumpyTerms(), "pd": PD(), "pandas": PD()})
     in_cols = [c for c in ("season", "weekday_weekend", "temperature", "observed") if c != "observed" or with_observed]
     data = AbsObj({"BillingBaselineData", "BillingReportingData", "DailyBaselineData", "DailyReportingData"}, tz="TZ", df=AFrame("input", in_cols), warnings=[], disqualification=[])
     f = Function(fi.node, env, it)
@@ -323,6 +327,8 @@ def interpret_plain_predict(chk, fi: FuncInfo, classes, with_observed: bool) -> 
     _INTERP[0] = it
     env = ModuleEnv(chk.repo, fi.module, it, {"np": NumpyTerms(), "numpy": NumpyTerms(), "pd": PD(), "pandas": PD()})
     model = _Model(classes, with_observed)
+    if fi.cls is not None:
+        model._bind_repo(chk, fi.cls, it, {"np": NumpyTerms(), "numpy": NumpyTerms(), "pd": PD(), "pandas": PD()})
     model._baseline_data_type = ClassRef("DailyBaselineData")
     model._reporting_data_type = ClassRef("DailyReportingData")
     in_cols = [c for c in ("season", "weekday_weekend", "temperature", "observed") if c != "observed" or with_observed]
